@@ -8,12 +8,15 @@
 (* dividing out exactly those dofs leaves the remaining system closed.      *)
 (***************************************************************************)
 EXTENDS Integers, Sequences, FiniteSets, TLC, Json
-CONSTANTS N, Variant
-VARIABLES pat, done
-vars == <<pat, done>>
+CONSTANTS N, Variant, Depth
+VARIABLES pat,     \* the (value) pattern of the matrix given to the last update
+          diag,    \* the dofs the wrapper divides out (its partition, computed in update)
+          hist, done
+vars == <<pat, diag, hist, done>>
 Idx == 1..N
 Perms == {f \in [Idx -> Idx] : \A i, j \in Idx : i # j => f[i] # f[j]}
 HasTransversal(p) == \E f \in Perms : \A i \in Idx : p[i][f[i]]
+Pats == {p \in [Idx -> [Idx -> BOOLEAN]] : HasTransversal(p)}
 
 RowFree(p, i) == \A j \in Idx \ {i} : ~p[i][j]
 ColFree(p, i) == \A j \in Idx \ {i} : ~p[j][i]
@@ -22,11 +25,22 @@ DiagIdx(p) == {i \in Idx : p[i][i] /\ ColFree(p, i) /\ (Variant = "column_only" 
 (* declarative: x_i = b_i / A_ii is forced by equation i alone, and x_i appears in no other equation *)
 Decoupled(p, i) == p[i][i] /\ RowFree(p, i) /\ ColFree(p, i)
 
-Init == pat \in [Idx -> [Idx -> BOOLEAN]] /\ HasTransversal(pat) /\ done = FALSE
-Next == ~done /\ done' = TRUE /\ UNCHANGED pat
+(* one wrapper object, updated Depth times.  The matrices may be stored with one fixed structure (explicit zeros, as an   *)
+(* assembly with fixed connectivity produces them): the partition must follow the VALUES of the current matrix; the       *)
+(* variant "stale_partition" recomputes it only when the stored structure changes, i.e. never after the first update       *)
+Init == pat \in Pats /\ diag = DiagIdx(pat) /\ hist = <<[pat |-> pat, diag |-> DiagIdx(pat)]>> /\ done = FALSE
+Update(p) ==
+  /\ ~done /\ Len(hist) < Depth
+  /\ pat' = p
+  /\ diag' = IF Variant = "stale_partition" THEN diag ELSE DiagIdx(p)
+  /\ hist' = Append(hist, [pat |-> p, diag |-> diag'])
+  /\ UNCHANGED done
+Finish == ~done /\ Len(hist) = Depth /\ done' = TRUE /\ UNCHANGED <<pat, diag, hist>>
+Next == Finish \/ \E p \in Pats : Update(p)
 Spec == Init /\ [][Next]_vars
 
-DiagSound == \A i \in DiagIdx(pat) : Decoupled(pat, i)
-DiagComplete == \A i \in Idx : Decoupled(pat, i) => i \in DiagIdx(pat)
-Emit == done => PrintT(<<"CASE", ToJson([pat |-> pat, diag |-> DiagIdx(pat)])>>)
+DiagSound == \A i \in diag : Decoupled(pat, i)
+DiagComplete == \A i \in Idx : Decoupled(pat, i) => i \in diag
+Emit == (done /\ Depth = 1) => PrintT(<<"CASE", ToJson([pat |-> pat, diag |-> diag])>>)
+EmitSeq == (done /\ Depth > 1) => PrintT(<<"SEQ", ToJson([steps |-> hist])>>)
 =============================================================================
